@@ -54,3 +54,38 @@ Proof. unfold len. cbn [length]. lia. Qed.
 Lemma len_nil {A} : len (@nil A) = 0. Proof. reflexivity. Qed.
 Lemma len_app {A} (a b : list A) : len (a ++ b) = len a + len b.
 Proof. unfold len. rewrite app_length. lia. Qed.
+
+(* ---- reading inside concatenations ---- *)
+Lemma skipn_len_app {A} (pre post : list A) : skipn (N.to_nat (len pre)) (pre ++ post) = post.
+Proof. unfold len. rewrite Nat2N.id. induction pre as [|x pre IH]; [reflexivity|]. cbn [length skipn app]. exact IH. Qed.
+Lemma firstn_len_app {A} (pre post : list A) : firstn (N.to_nat (len pre)) (pre ++ post) = pre.
+Proof. unfold len. rewrite Nat2N.id. induction pre as [|x pre IH]; [reflexivity|]. cbn [length firstn app]. f_equal. exact IH. Qed.
+Lemma slice_from_app (pre post : bytes) i : i = len pre -> slice_from (pre ++ post) i = Ok post.
+Proof. intros ->. unfold slice_from, slice. rewrite len_app.
+  assert (E1: (len pre <=? len pre + len post) = true) by (apply N.leb_le; lia).
+  assert (E2: (len pre + len post <=? len pre + len post) = true) by (apply N.leb_le; lia).
+  rewrite E1, E2. cbn [andb]. rewrite skipn_len_app. f_equal.
+  replace (len pre + len post - len pre) with (len post) by lia.
+  rewrite <- (app_nil_r post) at 2. apply firstn_len_app. Qed.
+Lemma slice_mid (pre mid post : bytes) i j : i = len pre -> j = i + len mid ->
+  slice (pre ++ mid ++ post) i j = Ok mid.
+Proof. intros -> ->. unfold slice. rewrite !len_app.
+  assert (E1: (len pre <=? len pre + len mid) = true) by (apply N.leb_le; lia).
+  assert (E2: (len pre + len mid <=? len pre + (len mid + len post)) = true) by (apply N.leb_le; lia).
+  rewrite E1, E2. cbn [andb]. rewrite skipn_len_app. f_equal.
+  replace (len pre + len mid - len pre) with (len mid) by lia. apply firstn_len_app. Qed.
+Lemma dropN_len_app {A} (pre post : list A) i : i = len pre -> dropN i (pre ++ post) = post.
+Proof. intros ->. apply skipn_len_app. Qed.
+Lemma takeN_len_app {A} (pre post : list A) i : i = len pre -> takeN i (pre ++ post) = pre.
+Proof. intros ->. apply firstn_len_app. Qed.
+
+(* testing one bit through a mask *)
+Lemma land_pow2' r n : N.land r (2 ^ n) = if N.testbit r n then 2 ^ n else 0.
+Proof. apply N.bits_inj; intro m. rewrite N.land_spec, N.pow2_bits_eqb.
+  destruct (N.eqb_spec n m) as [->|Hne].
+  - destruct (N.testbit r m); [rewrite N.pow2_bits_true; reflexivity | rewrite N.bits_0; reflexivity].
+  - rewrite andb_false_r. destruct (N.testbit r n); [|rewrite N.bits_0; reflexivity].
+    rewrite N.pow2_bits_eqb. symmetry. apply N.eqb_neq. exact Hne. Qed.
+Lemma mask_test r n : negb (N.land r (2 ^ n) =? 0) = N.testbit r n.
+Proof. rewrite land_pow2'. destruct (N.testbit r n); [|reflexivity].
+  assert (2 ^ n <> 0) by (apply N.pow_nonzero; lia). destruct (N.eqb_spec (2 ^ n) 0); [contradiction|reflexivity]. Qed.
